@@ -497,6 +497,79 @@ func c14CRSTie(c *Ctx, set c14Set) {
 	c.Count("crs_tie")
 }
 
+// c14CRSShared: the CRS-sharing workflow.  Party 0 creates the CRS with sampling.NewPRNG() and ships crs.Key(); every
+// other party rebuilds it with sampling.NewKeyedPRNG(key).  With the same sequence of SampleCRP calls all parties must hold
+// bit-identical reference polynomials, and the collective public key generated from each party's OWN copy must work.
+func c14CRSShared(c *Ctx, set c14Set, n int) {
+	params := set.params
+	crs0, err := sampling.NewPRNG()
+	if err != nil {
+		panic(err)
+	}
+	key := crs0.Key()
+	crss := []*sampling.KeyedPRNG{crs0}
+	for i := 1; i < n; i++ {
+		p, err := sampling.NewKeyedPRNG(key)
+		if err != nil {
+			panic(err)
+		}
+		crss = append(crss, p)
+	}
+	cfgs := c14EvkConfigs(set)
+	cfgA, cfgB := cfgs[c.rng.Intn(len(cfgs))], cfgs[c.rng.Intn(len(cfgs))]
+	ckg := multiparty.NewPublicKeyGenProtocol(params)
+	evkg := multiparty.NewEvaluationKeyGenProtocol(params)
+	rkg := multiparty.NewRelinearizationKeyGenProtocol(params)
+	gkg := multiparty.NewGaloisKeyGenProtocol(params)
+	cpkCRP := make([]multiparty.PublicKeyGenCRP, n)
+	seqs := make([]string, n)
+	for i, crs := range crss {
+		var sb strings.Builder
+		cpkCRP[i] = ckg.SampleCRP(crs)
+		sb.WriteString(c14RawQP(cpkCRP[i].Value))
+		sb.WriteString(c14RawCRP(rkg.SampleCRP(crs, cfgA.params()).Value))
+		sb.WriteString(c14RawCRP(gkg.SampleCRP(crs, cfgB.params()).Value))
+		sb.WriteString(c14RawCRP(evkg.SampleCRP(crs, cfgA.params()).Value))
+		seqs[i] = sb.String()
+	}
+	detail := ""
+	for i := 1; i < n; i++ {
+		if seqs[i] != seqs[0] {
+			detail = fmt.Sprintf("party_%d_rebuilt_from_Key()_samples_other_reference_polynomials_than_the_creator", i)
+			break
+		}
+	}
+	allZero := true
+	for _, b := range key {
+		if b != 0 {
+			allZero = false
+		}
+	}
+	if detail == "" && allZero {
+		detail = "Key()_of_a_NewPRNG_generator_is_all_zero"
+	}
+	c.Probe("crs_shared_via_key", fmt.Sprintf("set=%s N=%d calls=cpk,rkg(%s),gal(%s),evk", set.name, n, strings.ReplaceAll(cfgA.String(), " ", ","), strings.ReplaceAll(cfgB.String(), " ", ",")),
+		"C14-crs-key-sharing", detail)
+
+	// the collective public key with each party using its own copy of the reference polynomial
+	keys := c14GenKeys(set, n)
+	agg := ckg.AllocateShare()
+	for i := 0; i < n; i++ {
+		sh := ckg.AllocateShare()
+		ckg.GenShare(keys.sk[i], cpkCRP[i], &sh)
+		if i == 0 {
+			agg = sh
+		} else {
+			ckg.AggregateShares(agg, sh, &agg)
+		}
+	}
+	pk := rlwe.NewPublicKey(params)
+	ckg.GenPublicKey(agg, cpkCRP[0], pk)
+	c14ProbeTag = " crs_shared_via_Key()"
+	c14ProbePK(c, set, n, keys, pk)
+	c14ProbeTag = ""
+}
+
 // ---------------------------------------------------------------------------------------------
 // mismatched shares
 
